@@ -173,7 +173,7 @@ func c09MakeLeftovers(dir string) (tmp, backup string) {
 	return
 }
 
-func exists(p string) int {
+func c09Exists(p string) int {
 	if _, err := os.Stat(p); err == nil {
 		return 1
 	}
@@ -255,7 +255,7 @@ func (q *c08Seq) runC09Lines(lines []string) {
 			}
 		case l == "checkleftovers":
 			for _, e := range left {
-				q.out.Line("leftover %s %s %d", e[0], e[1], exists(e[2]))
+				q.out.Line("leftover %s %s %d", e[0], e[1], c09Exists(e[2]))
 			}
 		default:
 			q.op(l)
